@@ -47,6 +47,10 @@ const fwdFrames = "mosdns/v5/plugin/executable/forward."
 
 func hook(_ string, arg any) {
 	hookTotal.Add(1)
+	if _, ok := arg.(*epUp); ok {
+		epDelivered.Add(1)
+		return
+	}
 	u, ok := arg.(*memUp)
 	if !ok {
 		hookForeign.Add(1)
@@ -589,7 +593,18 @@ func main() {
 	caselog = evid.OpenCaseLog()
 	poolsan.Install(func(r poolsan.Report) {
 		noteViolation()
-		rep.Violation("poolsan-"+r.Kind, "buffer-pool sanitizer: "+r.Kind+": "+r.Info, map[string]any{"kind": "poolsan", "stack": r.Stack})
+		w := map[string]any{"kind": "poolsan", "stack": r.Stack}
+		what := "buffer-pool sanitizer: " + r.Kind + ": " + r.Info
+		if fl := epInflightDescs(); len(fl) > 0 {
+			// raised during the error-path phase: name the call(s) whose Exec is running
+			w["kind"], w["calls_in_flight"] = "errpaths", fl
+			var cls []string
+			for _, d := range fl {
+				cls = append(cls, fmt.Sprintf("%s query %q on forward #%d (%s)", d.Class, trunc(d.QName, 60), d.Fwd.Idx, d.Stage))
+			}
+			what += " [raised while Exec was running for: " + strings.Join(cls, "; ") + "]"
+		}
+		rep.Violation("poolsan-"+r.Kind, what, w)
 	})
 	sched.On("forward.result.delivered", hook)
 	rep.SetRule("one case = one Forward.Exec (or tag-subset exec) call on in-memory upstreams: |U| x concurrent x outcome per queried upstream {NOERROR,NXDOMAIN,SERVFAIL,REFUSED,error,garbage,never} x arrival order (forced through the forward.result.delivered hook) x point at which the caller's ctx ends {never, before the call, before the first arrival, between arrivals}; thorough enumerates |U| 1..4 x c {-1,0,1,2,3,5} x 7^n x n! x cancel points completely, plus sampled tag subsets / wider |U|,c; 'storm' cases release all upstreams at once and are judged against the union over orders; non-trivial = at least 2 exchanges whose outcomes differ, or a ctx that ends while exchanges are outstanding; distinct = list length, c, subset, arrival outcome sequence, order, cancel point")
@@ -622,6 +637,8 @@ func main() {
 			runPool("replay", cs, len(cs))
 		case d.Kind == "loopback":
 			loopback()
+		case d.Kind == "errpaths":
+			errPaths()
 		case d.Kind == "auto":
 			startDistribution()
 		default:
@@ -668,6 +685,7 @@ func main() {
 	runtime.GOMAXPROCS(16)
 
 	sharedForwards(rep.Pick(60, 600))
+	errPaths()
 	startDistribution()
 	checkGlobalStartHist()
 	loopback()
